@@ -281,6 +281,11 @@ def adfStep (a : AdfSt) (l : String) (ws : List String) : Option (List String ×
     -- the first complete model is the grounded interpretation (C02 `complete_exact`: head = grounded)
     let g := if a.n ≤ 7 then specAnswer "grounded" a.n a.tts else modelAnswer "grounded" a.n a.fms.toList
     some ([l, s!"~ first={g}"], a)
+  | ["detrepro", _, _, _] =>
+    -- determinism: the same search twice on the used object and once on a twin lists the same
+    -- interpretations in the same order (C11.answers_memo_independent for the used object,
+    -- C11.ng_order_history_independent for the twin: the order does not depend on the node table)
+    some ([l, "~ deterministic same-object=1 twin=1"], a)
   | ["randrepro", _, _, mode, _] =>
     -- StdRng is not modelled: the specification only says that a seeded random search is
     -- reproducible (same object twice, and a twin) and returns the prescribed set
